@@ -20,6 +20,11 @@ theorem materialised_match_table : allSpaces matchesTable = true := by decide +k
 /-- `X_mks` / `hmks` are the table entry itself, bit for bit, in every namespace -/
 theorem mks_is_table_entry : allSpaces mksIsTable = true := by decide +kernel
 
+/-- `X_cgs` / `hcgs` carry no MKS current in any namespace: an electromagnetic constant written
+    there is the Gaussian counterpart (so `materialised_match_table`'s "or its Gaussian
+    counterpart" alternative is the one taken for `qp_cgs`, `qe_cgs`, `q_pl_cgs`) -/
+theorem cgs_guise_has_no_mks_current : allSpaces cgsHasNoCurrent = true := by decide +kernel
+
 example : spaces.length ≥ 10 ∧ pcRows.length > 200 ∧ constTable.length > 30 := by decide +kernel
 
 end Unyt.C15
